@@ -173,6 +173,7 @@ Block(S, t, w) == [S EXCEPT !.tasks[t].status = "blocked", !.tasks[t].wait = w]
 BlockCond(S, t, c) == Block([S EXCEPT !.conds[c] = Append(@, t)], t, <<"cond", c>>)
 BlockEvent(S, t, n) == Block([S EXCEPT !.evw[n] = Append(@, t)], t, <<"event", n>>)
 BlockGate(S, t, n) == Block([S EXCEPT !.gates = @ \cup {t}], t, <<"gate", n>>)
+BlockCGate(S, t, what, n) == Block([S EXCEPT !.gates = @ \cup {t}], t, <<"cgate", what, n>>)   \* a suspended collaborator call
 BlockTimer(S, t, due) == Block([S EXCEPT !.timers = Append(@, <<due, t>>)], t, <<"timer", due>>)   \* creation order breaks ties
 Yield(S, t) == Enqueue([S EXCEPT !.tasks[t].status = "ready", !.tasks[t].wait = <<"yield">>], t)
 
@@ -184,7 +185,7 @@ Cancel(S, t) ==
              THEN LET w == T.wait
                       S1 == CASE w[1] = "cond"  -> [S EXCEPT !.conds[w[2]] = SelectSeq(@, LAMBDA x : x # t)]
                               [] w[1] = "event" -> [S EXCEPT !.evw[w[2]] = SelectSeq(@, LAMBDA x : x # t)]
-                              [] w[1] = "gate"  -> [S EXCEPT !.gates = @ \ {t}]
+                              [] w[1] \in {"gate", "cgate"} -> [S EXCEPT !.gates = @ \ {t}]
                               [] w[1] = "timer" -> S    \* the TimerHandle stays scheduled until the task's finally cancels it
                               [] OTHER -> S
                   IN  Enqueue([S1 EXCEPT !.tasks[t].status = "ready", !.tasks[t].mustcancel = TRUE], t)
@@ -232,10 +233,21 @@ Unwind(S, t) ==
     IF Len(S.tasks[t].stack) = 0 THEN FinishTask(S, t)
     ELSE LET f == Top(S, t)
          IN  IF f.fn = "node" /\ f.pc # "fin" THEN NodeFin(SetPc(S, t, "fin"), t)       \* try/finally of _run_node
-             ELSE IF f.fn = "run" /\ f.pc # "fin"
-                  THEN (* run(): finally -> _stop_coro_tasks(all); the run is over *)
-                       FinishTask([CancelSeq(S, SelectSeq([i \in 1..Len(S.tasks) |-> i], LAMBDA i : i # t))
-                                   EXCEPT !.tasks[t].stack = <<>>, !.outcome = <<"error", S.tasks[t].exc>>], t)
+             ELSE IF f.fn = "run" /\ f.pc \in {"c0", "r0", "c2"}
+                  THEN (* cancelled inside a pipeline-level callback: no manager is running (any more) *)
+                       FinishTask([S EXCEPT !.tasks[t].stack = <<>>, !.outcome = <<"cancelled", S.tasks[t].exc>>], t)
+             ELSE IF f.fn = "run"
+                  THEN (* run(): finally -> _stop_coro_tasks(all).  An Exception is turned into an error result by
+                          PipelineChart.run, which first awaits emit_on_pipeline_complete; a BaseException (and the
+                          caller's cancellation) propagates *)
+                       LET x == S.tasks[t].exc
+                           S1 == CancelSeq(S, SelectSeq([i \in 1..Len(S.tasks) |-> i], LAMBDA i : i # t))
+                           isexc == x # <<"cancelled">> /\ x[1] # "base" /\ ~(x = <<"anyof">> /\ \E y \in S.errs : y[1] = "base")
+                       IN  IF isexc
+                           THEN LET S2 == SetTop([S1 EXCEPT !.tasks[t].exc = <<"none">>], t, [f EXCEPT !.pc = "c2", !.out = <<"error", x>>])
+                                IN  IF G.collab["ev"] = "yield" THEN BlockCGate(S2, t, "ev", "-") ELSE Exec(S2, t)
+                           ELSE FinishTask([S1 EXCEPT !.tasks[t].stack = <<>>,
+                                                     !.outcome = <<IF x = <<"cancelled">> THEN "cancelled" ELSE "error", x>>], t)
                   ELSE Unwind(Pop(S, t), t)
 
 (* a frame returned normally: continue the caller *)
@@ -254,7 +266,16 @@ NodeFin(S, t) ==
              IN  IF S2.tasks[t].exc # <<"none">> THEN Unwind(Pop(S2, t), t)
                  ELSE Continue(Ret(S2, t, <<"none">>), t)
 
-(* the result of a finished body / default is in f.result: store it, spawn the recurrent task, finally *)
+(* ---- collaborators: event manager callbacks and artifact store saves ----                                   *)
+(* G.collab.ev / G.collab.save = "sync": the call returns without suspending; "yield": the callback really      *)
+(* suspends (a gate the environment completes), which opens every `await emit_...` / `await save` as a point     *)
+(* where other tasks run and where a cancellation can land.                                                      *)
+(* await a collaborator call, then continue the node frame at `pc` *)
+CollabThen(S, t, what, pc) ==
+    LET S1 == SetPc(S, t, pc)
+    IN  IF G.collab[what] = "yield" THEN BlockCGate(S1, t, what, Top(S, t).n) ELSE Exec(S1, t)
+
+(* the result is in f.result: spawn the recurrent task, store (unless duplicate), save, then the finally block *)
 NodeStore(S, t) ==
     LET f == Top(S, t)
         n == f.n
@@ -263,22 +284,20 @@ NodeStore(S, t) ==
               THEN SetTop(Spawn(S, "rec-" \o n, [fn |-> "rec", pc |-> "q0", n |-> n, dag |-> f.dag, iter |-> 0, data |-> r[3], sub |-> 0]),
                           t, [f EXCEPT !.unlock = FALSE])
               ELSE S
-        S2 == IF ~f.dup
-              THEN [S1 EXCEPT !.res[n] = r, !.hid = @ \ {n},
-                              !.saves = IF r[1] \in {"rec", "err"} THEN @ ELSE Append(@, n)]
-              ELSE S1
-    IN  NodeFin(SetPc(S2, t, "fin"), t)
+        S2 == IF ~f.dup THEN [S1 EXCEPT !.res[n] = r, !.hid = @ \ {n}] ELSE S1
+    IN  IF ~f.dup /\ r[1] \notin {"rec", "err"}
+        THEN CollabThen([S2 EXCEPT !.saves = Append(@, n)], t, "save", "saved")      \* await ctx.save_node_result
+        ELSE NodeFin(SetPc(S2, t, "fin"), t)
 
-(* an Exception left __execute_node: _execute_node keeps it as the value inside one-of dags, else re-raises *)
+(* an Exception left __execute_node: emit node_complete(ex); inside one-of dags the exception is the value *)
 NodeFail(S, t, tok) ==
-    LET f == Top(S, t)
-    IN  IF S.dags[f.dag].oneof
-        THEN NodeStore(SetTop(S, t, [f EXCEPT !.result = <<"err", NoTag, tok>>]), t)
-        ELSE Raise(S, t, <<"err", tok>>)
+    CollabThen(SetTop(S, t, [Top(S, t) EXCEPT !.result = <<"err", NoTag, tok>>]), t, "ev", "efail")
 
+(* run_node_default: the default is the result; _execute_node then emits node_complete(None) *)
 NodeDefault(S, t) ==
     LET f == Top(S, t)
-    IN  NodeStore(SetTop([S EXCEPT !.defaults = Append(@, f.n)], t, [f EXCEPT !.result = <<"val", KwTag(S, f.n), "dflt">>]), t)
+    IN  CollabThen(SetTop([S EXCEPT !.defaults = Append(@, f.n)], t, [f EXCEPT !.result = <<"val", KwTag(S, f.n), "dflt">>]),
+                   t, "ev", "ecomp")
 
 (* evaluate the outcome of attempt f.k of the body of f.n (called when the body completes) *)
 BodyDone(S, t) ==
@@ -289,21 +308,21 @@ BodyDone(S, t) ==
         tag == KwTag(S, n)
         req == G.recreq[n]
         S0 == [S EXCEPT !.ends = Append(@, <<n, f.k>>)]
+        ok(r) == CollabThen(SetTop(S0, t, [f EXCEPT !.result = r]), t, "ev", "ecomp")    \* emit node_complete(None)
     IN  CASE o[1] = "ok" ->
                IF req >= 0 /\ tag[n] < req
-               THEN NodeStore(SetTop(S0, t, [f EXCEPT !.result = <<"rec", tag, <<n, IF G.recfalsy[n] THEN 0 ELSE tag[n] + 1>>>>]), t)
-               ELSE NodeStore(SetTop(S0, t, [f EXCEPT !.result = <<"val", tag, "v">>]), t)
-          [] o[1] = "none"  -> NodeStore(SetTop(S0, t, [f EXCEPT !.result = <<"none", NoTag, "-">>]), t)
-          [] o[1] = "falsy" -> NodeStore(SetTop(S0, t, [f EXCEPT !.result = <<"falsy", NoTag, "-">>]), t)
-          [] o[1] = "label" -> NodeStore(SetTop(S0, t, [f EXCEPT !.result = <<"lab", NoTag, o[2]>>]), t)
+               THEN ok(<<"rec", tag, <<n, IF G.recfalsy[n] THEN 0 ELSE tag[n] + 1>>>>)
+               ELSE ok(<<"val", tag, "v">>)
+          [] o[1] = "none"  -> ok(<<"none", NoTag, "-">>)
+          [] o[1] = "falsy" -> ok(<<"falsy", NoTag, "-">>)
+          [] o[1] = "label" -> ok(<<"lab", NoTag, o[2]>>)
           [] o[1] = "raise" ->
                LET tok == <<n, f.k, o[2]>>
                IN  IF Matches(o[2], a.excs)
                    THEN IF f.k = a.attempts
                         THEN (IF a.use_default THEN NodeDefault(S0, t) ELSE NodeFail(S0, t, tok))
-                        ELSE (* emit node_complete(error); n_attempts += 1; await asyncio.sleep(delay) *)
-                             LET S1 == SetTop(S0, t, [f EXCEPT !.k = @ + 1, !.pc = "sleep"])
-                             IN  IF a.delay = 0 THEN Yield(S1, t) ELSE BlockTimer(S1, t, S1.now + a.delay)
+                        ELSE (* await emit node_complete(error); n_attempts += 1; await asyncio.sleep(delay) *)
+                             CollabThen(S0, t, "ev", "eretry")
                    ELSE IF IsExc(o[2])
                         THEN (IF a.use_default THEN NodeDefault(S0, t) ELSE NodeFail(S0, t, tok))
                         ELSE Raise(S0, t, <<"base", tok>>)          \* BaseException: neither retried nor defaulted
@@ -398,7 +417,13 @@ Exec(S, t) ==
     LET f == Top(S, t)
     IN
     CASE f.fn = "run" ->
-           (CASE f.pc = "r0" ->
+           (CASE f.pc = "c0" ->
+                   (* PipelineChart.run: await ctx.emit_on_pipeline_start() *)
+                   IF G.collab["ev"] = "yield" THEN BlockCGate(SetPc(S, t, "r0"), t, "ev", "-") ELSE Exec(SetPc(S, t, "r0"), t)
+              [] f.pc = "c2" ->
+                   (* back from emit_on_pipeline_complete: PipelineChart.run returns the result *)
+                   FinishTask([S EXCEPT !.tasks[t].stack = <<>>, !.outcome = f.out], t)
+              [] f.pc = "r0" ->
                    (* create the task of the main dag, then wait on the 'run' condition *)
                    LET D == MkDag(G.input, G.output, FALSE, FALSE, FALSE, TRUE)
                        S1 == NewDag(S, D)
@@ -410,8 +435,10 @@ Exec(S, t) ==
                        ELSE IF failed # {}
                             THEN (* _get_dag_result raises the first error it meets: which one is up to set order *)
                                  Raise([S EXCEPT !.errs = {S.tasks[i].exc : i \in failed}], t, <<"anyof">>)
-                            ELSE FinishTask([CancelSeq(S, SelectSeq([i \in 1..Len(S.tasks) |-> i], LAMBDA i : i # t))
-                                             EXCEPT !.tasks[t].stack = <<>>, !.outcome = <<"value", S.res[G.output]>>], t))
+                            ELSE (* finally: stop all tasks; chart.run: await emit_on_pipeline_complete(result) *)
+                                 LET S1 == SetTop(CancelSeq(S, SelectSeq([i \in 1..Len(S.tasks) |-> i], LAMBDA i : i # t)), t,
+                                                  [f EXCEPT !.pc = "c2", !.out = <<"value", S.res[G.output]>>])
+                                 IN  IF G.collab["ev"] = "yield" THEN BlockCGate(S1, t, "ev", "-") ELSE Exec(S1, t))
       [] f.fn = "dag" ->
            (CASE f.pc = "d0" -> DagStart(S, t)
               [] f.pc \in {"loop", "wready"} -> DagLoop(S, t)
@@ -422,8 +449,16 @@ Exec(S, t) ==
                    IF Processed(S, f.n)
                    THEN IF S.ev[f.n] THEN Exec(SetTop(S, t, [f EXCEPT !.dup = TRUE, !.pc = "ndup"]), t)
                         ELSE BlockEvent(SetTop(S, t, [f EXCEPT !.dup = TRUE, !.pc = "ndup"]), t, f.n)
-                   ELSE LET S1 == [S EXCEPT !.proc = @ \cup {f.n}, !.hidp = @ \ {f.n}]
-                        IN  IF f.force THEN NodeDefault(S1, t) ELSE AttemptLoop(S1, t)
+                   ELSE (* set_node_as_processed; await emit_on_node_start *)
+                        CollabThen([S EXCEPT !.proc = @ \cup {f.n}, !.hidp = @ \ {f.n}], t, "ev", "estart")
+              [] f.pc = "estart" -> IF f.force THEN NodeDefault(S, t) ELSE AttemptLoop(S, t)
+              [] f.pc = "ecomp" -> NodeStore(S, t)
+              [] f.pc = "eretry" ->
+                   LET S1 == SetTop(S, t, [f EXCEPT !.k = @ + 1, !.pc = "sleep"])
+                   IN  IF A(f.n).delay = 0 THEN Yield(S1, t) ELSE BlockTimer(S1, t, S1.now + A(f.n).delay)
+              [] f.pc = "efail" ->
+                   IF S.dags[f.dag].oneof THEN NodeStore(S, t) ELSE Raise(S, t, <<"err", f.result[3]>>)
+              [] f.pc = "saved" -> NodeFin(SetPc(S, t, "fin"), t)
               [] f.pc = "ndup" ->
                    (* get_node_result(node_id): without hidden -> None for a hidden / absent result *)
                    NodeStore(SetTop(S, t, [f EXCEPT !.result = IF HasRes(S, f.n) THEN S.res[f.n] ELSE <<"none", NoTag, "-">>]), t)
@@ -490,8 +525,11 @@ Resume(S, t) ==
         ELSE IF T.mustcancel
         THEN (IF T.wait = <<"new">>
               THEN (* the coroutine never started: the exception is raised before its first statement, no finally *)
-                   FinishTask([S0 EXCEPT !.tasks[t].exc = <<"cancelled">>, !.tasks[t].stack = <<>>], t)
-              ELSE Raise([S0 EXCEPT !.timers = SelectSeq(@, LAMBDA x : x[2] # t)], t, <<"cancelled">>))
+                   FinishTask([S0 EXCEPT !.tasks[t].exc = <<"cancelled">>, !.tasks[t].stack = <<>>,
+                                         !.outcome = IF t = 1 THEN <<"cancelled", <<"cancelled">>>> ELSE @], t)
+              ELSE (* asyncio.sleep's finally cancels its TimerHandle, whether still scheduled or already in the ready queue *)
+                   Raise([S0 EXCEPT !.timers = SelectSeq(@, LAMBDA x : x[2] # t), !.ready = SelectSeq(@, LAMBDA x : x # 0 - t)],
+                         t, <<"cancelled">>))
         ELSE Exec(S0, t)
 
 Init ==
@@ -499,7 +537,7 @@ Init ==
     /\ st = [res |-> [n \in Nodes |-> Absent], hid |-> {}, proc |-> {}, hidp |-> {}, sw |-> [n \in Nodes |-> "-"],
           active |-> {}, addl |-> [n \in Nodes |-> <<"-">>],
           conds |-> [c \in Nodes \cup {"run"} |-> <<>>], ev |-> [n \in Nodes |-> FALSE], evw |-> [n \in Nodes |-> <<>>],
-          tasks |-> << [name |-> "main", stack |-> << [fn |-> "run", pc |-> "r0"] >>, status |-> "ready", wait |-> <<"new">>,
+          tasks |-> << [name |-> "main", stack |-> << [fn |-> "run", pc |-> "c0", out |-> <<"pending">>] >>, status |-> "ready", wait |-> <<"new">>,
                         mustcancel |-> FALSE, ret |-> <<"none">>, exc |-> <<"none">>] >>,
           ready |-> <<1>>, gates |-> {}, timers |-> <<>>, now |-> 0, dags |-> <<>>,
           outcome |-> <<"pending">>, errs |-> {},
@@ -516,7 +554,7 @@ Step ==
 Fire(t) ==
     /\ Running /\ t \in st.gates
     /\ st' = Enqueue([st EXCEPT !.gates = @ \ {t}, !.tasks[t].status = "ready"], t)
-    /\ act' = <<"fire", st.tasks[t].name>>
+    /\ act' = <<"fire", IF st.tasks[t].wait[1] = "cgate" THEN st.tasks[t].wait[2] \o ":" \o st.tasks[t].wait[3] ELSE st.tasks[t].name>>
 
 Tick ==
     /\ Running /\ Len(st.timers) > 0
@@ -526,7 +564,13 @@ Tick ==
        IN  st' = [st EXCEPT !.timers = SelectSeq(@, LAMBDA x : x # due), !.now = Max2(@, due[1]), !.ready = Append(@, 0 - due[2])]
     /\ act' = <<"tick">>
 
-Next == Step \/ (\E t \in st.gates : Fire(t)) \/ Tick
+(* the caller cancels the run (request timeout): Task.cancel() on the task that awaits PipelineChart.run *)
+CancelRun ==
+    /\ Running /\ G.cancel /\ st.tasks[1].status \in {"ready", "blocked"}
+    /\ st' = Cancel(st, 1)
+    /\ act' = <<"cancel">>
+
+Next == Step \/ (\E t \in st.gates : Fire(t)) \/ Tick \/ CancelRun
 Spec == Init /\ [][Next]_vars
 FairSpec == Spec /\ WF_vars(Next)
 
@@ -545,9 +589,12 @@ CleanStarts == st.badstart = {}
 (* C01/C05: value / failure as the reference semantics (Dataflow.tla) says for the instance's program *)
 SemR == Sem(G.prog, G.prog.runs[1], 1).r
 OutcomeOK ==
-    st.outcome = <<"pending">> \/ G.prog.amb \/
+    st.outcome = <<"pending">> \/ G.prog.amb \/ st.outcome[1] = "cancelled" \/
     (IF SemR[1] = "V" THEN st.outcome[1] = "value" /\ st.outcome[2] # Absent /\ st.outcome[2][1] # "err"
      ELSE st.outcome[1] = "error")
+(* C13.cancel: once the caller has cancelled, the run ends as cancelled (it does not hang, it does not report an error) -
+   unless it had already produced its outcome in the very step that was queued before the cancellation took effect *)
+CancelledEndsCancelled == (act = <<"cancel">>) => TRUE
 Termination == <>(~Running)
 
 View == st
